@@ -1,0 +1,5 @@
+//go:build !verif
+
+package lungo
+
+func verifAt(string, ...interface{}) {}
